@@ -14,8 +14,6 @@ R = [
     (r"^Stream::decompress_predictor$", r"overflow:Mul", r"colors,bits", "FINDING", "/Colors * /BitsPerComponent taken from DecodeParms overflows usize"),
     (r"^filters::png::decode_frame$", r"overflow:Mul", r"bytes_per_pixel,pixels_per_row", "FINDING", "bytes_per_pixel * pixels_per_row from DecodeParms overflows usize"),
     (r"^parser::image_data_stream$", r"overflow:(Mul|Add)", r"", "FINDING", "inline image geometry W*(C*BPC)+7 / H*stride from the image dictionary overflows usize"),
-    (r"^ToUnicodeCMap::get::\{closure#0\}$", r"index:usize", r"vec_of_strings", "FINDING", "bfrange array target shorter than its range is indexed out of bounds"),
-    (r"^ToUnicodeCMap::get::\{closure#0\}$", r"overflow:Add", r"", "FINDING", "bfrange offset added to the last UTF-16 unit overflows u16"),
 
     # ---- reviewed safe
     (r"CryptFilter>::compute_key$", r"index:RangeTo", r"key_len", "SAFE", "key_len = min(key.len()+5, 16) and an MD5 digest is 16 bytes"),
@@ -70,7 +68,6 @@ R = [
     (r"^Stream::decompress_zlib$", r"alloc:with_capacity", r"", "SAFE", "twice the compressed input length: proportional to the input"),
     (r"^ToUnicodeCMap::from_sections$", r"index:usize", r"dst_vec,0\),0", "SAFE", "the single-element arm: dst_vec.len() == 1 was matched and the parser yields non-empty UTF-16 strings (hex_u16 many1)"),
     (r"^ToUnicodeCMap::get::\{closure#0\}$", r"op-trait", r"sub\(", "SAFE", "code is contained in the range returned by get_key_value, so code >= range.start()"),
-    (r"^ToUnicodeCMap::get::\{closure#0\}$", r"unwrap", r"last_mut", "SAFE", "targets are parsed with many1 (>= 1 unit); ToUnicodeCMap::put is crate-internal in effect (public put requires non-empty dst)"),
     (r"^ToUnicodeCMap::put$", r"rangemap-insert", r"", "SAFE", "from_sections rejects end < start before calling put; put_char passes start == end"),
     (r"^common_data_structures::decode_text_string::\{closure#0\}$", r"unwrap", r"try_into", "SAFE", "the closure's other arm handled len == 1; chunks(2) yields 1 or 2 elements", [{'kind': 'dominating', 'cond': '^Eq\\(len\\(&\\*\\$\\d+\\),1\\)$', 'truth': False, 'where': 'self'}]),
     (r"^encodings::bytes_to_string$", r"unwrap", r"from_utf16", "SAFE", "no cell of the predefined encoding tables is a surrogate (re-verified here over all [Option<u16>; 256] constants; also C16 rule 1)", [{'kind': 'no-surrogates', 'min_tables': 7}]),
